@@ -1,6 +1,5 @@
 import FluentModel.Plural
 import FluentModel.Generated
-import FluentModel.Drv.Common
 /-! Driver of area `num` (C12): see `harness/src/bin/fvh_num.rs` for the case-line format. -/
 namespace FluentModel.Drv.NumDrv
 open FluentModel FluentModel.Num FluentModel.Plural
@@ -143,7 +142,7 @@ def run (payload : String) : String :=
       -- named arguments reach `merge` through a `FluentArgs` (sorted by name)
       let sel := match opts with
         | none => v
-        | some named => fnNUMBER [v] named
+        | some named => fnNUMBER [v] (named.mergeSort (fun a b => decide (a.1 ≤ b.1)))
       let q := match opts with
         | none => "~"
         | some _ =>
